@@ -13,6 +13,7 @@ from ..stages import *
 from ..engine_k import engine_correspondence
 from . import _hidabs as H
 from . import _placement as P
+from . import _flexalg as FA
 
 THEOREMS = [
     'C05_hidden_zero : HiddenZero t -> memo f t i = Some (o, t\') -> HiddenZero t\' /\\ (every strict descendant of a display:none node of t\' '
@@ -32,6 +33,14 @@ THEOREMS = [
     'C05_block_algorithm_hidden_blind : HiddenBlind bs_is_none (block_alg pre abs_child)   [block_alg = compute_inner as a resumption, Model/BlockAlg.v]',
     'C05_block_algorithm_sets_zero_on_hidden : AbsChildLocal abs_child -> SetsZeroOnHidden bs_is_none (block_alg pre abs_child) b_zeroish',
     'C05_block_engine_hidden_invisible : the conclusion of C05_hidden_blind_engine for engines of block containers and leaves, no premise on the algorithms',
+    'C05_flex_algorithm_shape : Pre (in_flow_at st) (flex_BL s st) (ComputeSize: Ret | else: QSL walk (QSL abs_nodes (QSLc canonical-hidden-query with_order hidden_nodes Ret))) (flex_alg s st i)   '
+    '[flex_alg = compute_flexbox_layout as a resumption, Model/FlexAlg.v, K-exact against the event trace of the implementation]',
+    'C05_flex_algorithm_hidden_blind : HiddenBlind f_is_none flex_alg /\\ flex_alg s st i = flex_alg s (map f_hidden_view st) i',
+    'C05_flex_algorithm_sets_zero_on_hidden : SetsZeroOnHidden f_is_none flex_alg f_zeroish',
+    'C05_blockflex_engine_hidden_invisible : the conclusion of C05_hidden_blind_engine for engines of block containers, flex containers and leaves',
+    'C01_flex_algorithm_satisfies_interface : WFAlg (flex_alg s st i) /\\ (PerformLayout -> Visits (seq 0 n) ..) /\\ (PerformLayout -> SetsLast nones (seq 0 n) ..) /\\ NoHiddenSize nones ..',
+    'C01_flex_algorithm_NS_partial : fs_row s = false \\/ no child baseline-aligned -> ComputeSize -> SizeOnly (flex_alg s st i)',
+    'C01_flex_algorithm_NS_refuted : exists s st i, ComputeSize /\\ ~ SizeOnly (flex_alg s st i) /\\ first non-size event = PerformLayout/ContentSize query to child 0 (flexbox.rs l.1440)',
 ]
 
 
@@ -47,8 +56,10 @@ def run(rep, tier, seed, replay=None):
         'engine skeleton Model/Engine.v is hand-written (tied by the dirty-flag correspondence incl. hide, and trace validation of WF / H1)',
         'interface hypotheses on the real algorithms: WF, H1 (trace-validated on every run); HiddenBlind and SetsZeroOnHidden are PROVED for the block '
         'algorithm as modelled in Model/BlockAlg.v (compute_inner as a resumption assembled from the translated item pipeline and the K-validated '
-        'kernel of Model/Block.v) and for the item generation of all three algorithms (translated pipelines); for the flex and grid TAILS they are '
-        'validated only through the metamorphic oracle on the implementation',
+        'kernel of Model/Block.v), for the FLEX algorithm as modelled in Model/FlexAlg.v (all of compute_flexbox_layout as a resumption: hand model, '
+        'validated event by event and bit for bit against the implementation by `vh flexalg cases` on every run; for it WF, H1, H3, HQ are theorems too) '
+        'and for the item generation of all three algorithms (translated pipelines); for the GRID tail they are validated only through the metamorphic '
+        'oracle on the implementation',
         'translator/gen_filters.py (item-generation pipelines, box_generation_mode, the hidden-children loop of compute_inner); fails closed',
         'grid placement model Model/Placement.v: hand transcription of placement.rs / implicit_grid.rs / the child filters of grid/mod.rs '
         '(tied by K + fingerprints); tables regenerated from the source',
@@ -80,6 +91,10 @@ def run(rep, tier, seed, replay=None):
     # ---- K3: block containers with absolute / hidden children interleaved, vs the block model the new theorems are about
     if not replay:
         H.block_k(rep, 'C05', binp, seed + 550, 2400 if escalate else 600, p_absolute=0, p_hidden=300)
+    # ---- K4: the flex resumption (Model/FlexAlg.v) vs the event trace of compute_flexbox_layout, + the NS witness on the implementation
+    if not replay:
+        FA.flexalg_k(rep, 'C05', binp, seed + 5050, 1500 if escalate else 400, payload_is_broken=False)
+        FA.ns_witness(rep, 'C05', binp)
     for t in THEOREMS:
         rep.cov['samples'].append({'theorem': t})
     # ---- search: metamorphic oracle on the implementation
